@@ -102,6 +102,8 @@ class FlexiblePaxosNode(Entity):
         # Per-slot tracking
         self._slot_futures: dict[int, SimFuture] = {}
         self._slot_acks: dict[int, int] = {}
+        # slot -> (ballot the acks were collected under, distinct acceptors incl. self)
+        self._slot_ackers: dict[int, tuple[Ballot, set[str]]] = {}
         self._pending_commands: list[tuple[Any, SimFuture]] = []
 
         # Phase 1 state
@@ -159,6 +161,7 @@ class FlexiblePaxosNode(Entity):
         self._log.append(self._current_ballot.number, command)
         self._slot_futures[slot] = future
         self._slot_acks[slot] = 1  # self
+        self._slot_ackers[slot] = (self._current_ballot, {self.name})
 
     def start(self) -> list[Event]:
         return self._begin_phase1()
@@ -343,13 +346,35 @@ class FlexiblePaxosNode(Entity):
     def _handle_accepted(self, event: Event) -> list[Event]:
         metadata = event.context.get("metadata", {})
         slot = metadata["slot"]
+        ballot = self._current_ballot
 
-        if slot not in self._slot_acks:
-            self._slot_acks[slot] = 0
-        self._slot_acks[slot] += 1
+        # Only the leader of the ballot the ack was sent for may count it
+        if (
+            not self._is_leader
+            or ballot.node_id != self.name
+            or metadata.get("ballot_number") != ballot.number
+            or slot < 1
+            or slot > self._log.last_index
+        ):
+            return []
 
-        if self._slot_acks[slot] >= self._phase2_quorum and slot > self._log.commit_index:
-            newly_committed = self._log.advance_commit(slot)
+        # Distinct acceptors of the current ballot (acks of an older ballot do not count)
+        acked_ballot, ackers = self._slot_ackers.get(slot, (None, set()))
+        if acked_ballot != ballot:
+            ackers = {self.name}
+        ackers.add(metadata.get("from"))
+        self._slot_ackers[slot] = (ballot, ackers)
+        self._slot_acks[slot] = len(ackers)
+
+        # Commit the longest prefix in which every slot has a quorum under this ballot
+        commit = self._log.commit_index
+        while commit < self._log.last_index:
+            b, a = self._slot_ackers.get(commit + 1, (None, ()))
+            if b != ballot or len(a) < self._phase2_quorum:
+                break
+            commit += 1
+        if commit > self._log.commit_index:
+            newly_committed = self._log.advance_commit(commit)
             self._apply_committed(newly_committed)
         return []
 
